@@ -1,7 +1,7 @@
 """C02 - all worker kinds compute exactly what a direct call would."""
 import ast
 
-from ..astutil import (AnalysisError, dotted, calls_in, last_attr, receiver, norm, is_name, walk_local, is_self_attr,
+from ..astutil import (split_if, AnalysisError, dotted, calls_in, last_attr, receiver, norm, is_name, walk_local, is_self_attr,
                        loc, short, parent_map)
 from ..cfg import is_flow, path_str
 from ..lifecycle import lifecycle, worker_classes, PUBLIC
@@ -93,8 +93,10 @@ def fold_create(func, type_name, persistent):
 
     def run(stmts):
         for st in stmts:
-            if isinstance(st, ast.Expr) and isinstance(st.value, ast.Constant):
+            if (isinstance(st, ast.Expr) and isinstance(st.value, ast.Constant)) or isinstance(st, ast.Pass):
                 continue
+            if isinstance(st, ast.Expr) and isinstance(st.value, ast.Call) and (dotted(st.value.func) or '').startswith('logger.'):
+                continue      # logging does not take part in the choice of the class
             if isinstance(st, ast.If):
                 r = run(st.body if ev(st.test) else st.orelse)
                 if r is not None:
@@ -292,8 +294,9 @@ def run(ctx):
     # ---------------------------------------------------------------- R4 not-run outcome
     ok_store = ok_started = False
     for st in walk_local(init.node):
-        if isinstance(st, ast.If) and norm(st.test) == 'run':
-            for s in st.orelse:
+        sp = split_if(st, lambda t: is_name(t, 'run')) if isinstance(st, ast.If) else None
+        if sp:
+            for s in sp[1]:
                 if isinstance(s, ast.Assign) and any(is_self_attr(t, '_result') for t in s.targets) and norm(s.value) == '(True, None)':
                     ok_store = True
                 if isinstance(s, ast.Assign) and any(is_self_attr(t, '_started') for t in s.targets) and norm(s.value) == 'False':
